@@ -87,24 +87,35 @@ func runC13(res *lib.Result, tier string, seed int64, args []string) error {
 			comment string
 			local   bool
 			params  string
+			vararg  bool
+			markers []string
 		}
+		marker := 0
+		mark := func() string { marker++; return fmt.Sprintf(" zq%dz", marker) }
 		var lines []string
 		var decls []decl
 		add := func(kind int) {
 			name := fmt.Sprintf("v%d", len(decls)+1)
-			c1 := pick()
+			m1 := mark()
+			c1 := pick() + m1
 			comment := c1
+			markers := []string{m1}
 			trailing := r.Chance(1, 2)
-			if !trailing {
+			bare := r.Chance(1, 5) // no comment at all: must not inherit a neighbour's
+			if bare {
+				trailing, comment, markers = false, "", nil
+			} else if !trailing {
 				if r.Chance(1, 2) {
-					c2 := pick()
+					m2 := mark()
+					c2 := pick() + m2
 					lines = append(lines, "-- "+c1, "-- "+c2)
 					comment = c1 + "\n" + c2
+					markers = append(markers, m2)
 				} else {
 					lines = append(lines, "-- "+c1)
 				}
 			}
-			d := decl{line: len(lines), name: name, comment: comment}
+			d := decl{line: len(lines), name: name, comment: comment, markers: markers}
 			var text string
 			switch kind {
 			case 0:
@@ -113,12 +124,26 @@ func runC13(res *lib.Result, tier string, seed int64, args []string) error {
 			case 1:
 				text = name + " = 2"
 			case 2:
-				text = "local function " + name + "(aa, bb)"
 				d.local = true
-				d.params = "aa, bb"
+				switch r.Intn(3) {
+				case 0:
+					d.params = "aa, bb"
+					text = "local function " + name + "(aa, bb)"
+				case 1:
+					d.params, d.vararg = "aa", true
+					text = "local function " + name + "(aa, ...)"
+				default:
+					d.vararg = true
+					text = "local function " + name + "(...)"
+				}
 			default:
-				text = "function " + name + "(cc)"
-				d.params = "cc"
+				if r.Chance(1, 3) {
+					d.vararg = true
+					text = "function " + name + "(...)"
+				} else {
+					text = "function " + name + "(cc)"
+					d.params = "cc"
+				}
 			}
 			if trailing {
 				text += " -- " + c1
@@ -127,7 +152,9 @@ func runC13(res *lib.Result, tier string, seed int64, args []string) error {
 			if kind >= 2 {
 				lines = append(lines, "  return 1", "end")
 			}
-			lines = append(lines, "")
+			if r.Chance(1, 2) {
+				lines = append(lines, "")
+			}
 			decls = append(decls, d)
 		}
 		n := 2 + r.Intn(3)
@@ -172,7 +199,7 @@ func runC13(res *lib.Result, tier string, seed int64, args []string) error {
 			if d.local != strings.Contains(hov, "local ") {
 				problems = append(problems, fmt.Sprintf("label says local=%v, declaration is local=%v", strings.Contains(hov, "local "), d.local))
 			}
-			if d.params != "" {
+			if d.params != "" || d.vararg {
 				// the label renders "name(p1: type, p2: type)": the parameter names in order, in parentheses
 				i := strings.Index(hov, d.name+"(")
 				ok := i >= 0
@@ -181,7 +208,14 @@ func runC13(res *lib.Result, tier string, seed int64, args []string) error {
 					if j := strings.Index(rest, ")"); j >= 0 {
 						rest = rest[:j]
 					}
-					for _, p := range strings.Split(d.params, ", ") {
+					want := strings.Split(d.params, ", ")
+					if d.params == "" {
+						want = nil
+					}
+					if d.vararg {
+						want = append(want, "...")
+					}
+					for _, p := range want {
 						k := strings.Index(rest, p)
 						if k < 0 {
 							ok = false
@@ -194,9 +228,19 @@ func runC13(res *lib.Result, tier string, seed int64, args []string) error {
 					problems = append(problems, "label does not show the parameter list")
 				}
 			}
+			for _, o := range decls {
+				if o.name == d.name {
+					continue
+				}
+				for _, m := range o.markers {
+					if strings.Contains(hov, m) {
+						problems = append(problems, fmt.Sprintf("shows the comment of another declaration (%s)", o.name))
+					}
+				}
+			}
 			docOK := true
 			for _, cl := range strings.Split(d.comment, "\n") {
-				if !strings.Contains(hov, cl) {
+				if cl != "" && !strings.Contains(hov, cl) {
 					docOK = false
 				}
 			}
